@@ -1067,6 +1067,9 @@ class Poly:
         raise U(f"ndpoly.{attr}", node)
 
 
+pvar = z3.Function("pvar", Name, PV)            # the polynomial that is the indeterminate with that name
+
+
 class IndetElem:
     """element d of poly.indeterminants: the 0-d polynomial x_d"""
 
@@ -1080,6 +1083,21 @@ class IndetElem:
         if attr == "shape":
             return ShapeV(shp0)
         raise U(f"attribute {attr} of an indeterminate element", node)
+
+    def as_poly(self, ex):
+        """the 0-d polynomial x_d itself: its abstract value is the variable named names[d] (definition of pvar)"""
+        cache = self.poly.__dict__.setdefault("_indet_polys", {})
+        if self.d not in cache:
+            ctx = ex.ctx
+            q = Poly(ctx, ctx.fresh(f"indet{self.d}"), shape=shp0, names=self.poly.names, region=Region("fresh", "indeterminants"))
+            ctx.assume(q.wf(ctx))
+            ctx.assume(q.val(the_idx(shp0)) == pvar(nat(self.poly.names, self.d)))
+            q.indeterminate = (self.poly, self.d)
+            cache[self.d] = q
+        return cache[self.d]
+
+    def sx_binop(self, ex, op, other, node, reflected):
+        return self.as_poly(ex).sx_binop(ex, op, other, node, reflected)
 
 
 class NamesV:
